@@ -494,3 +494,18 @@ def run(rec):
             for isp in ("none", "auto", "Poisson", "redist"):
                 items.append(("abi", "none", sd, option, isp))
     rec.parallel(_work, items)
+    # 'for a given seed the processing is reproducible': the seed given by the user (incl. 0 and 2^32-1) is the one the engine receives
+    from . import C08_py
+    from .. import pysym
+    text = C08_py.HARNESS + '''
+
+def h_seed_reaches_engine(k: int, opt: int) -> bool:
+    """
+    pre: 0 <= k <= 5 and 0 <= opt <= 2
+    post: _
+    """
+    return seed_reaches_engine(k, opt)
+'''
+    mod = pysym.write_module("hgen_C14", text)
+    pysym.run_auto(rec, mod, [{"fn": "h_seed_reaches_engine", "what": "the seed given in the script (0, 1, 12345, 2^31-1, 2^31, 2^32-1) is the seed handed to the engine for every engine kind (reproducibility for a given seed)",
+                               "sig": "c14-seed", "structure": "seed", "viol": "the engine does not receive the seed the user gave (the initial-state processing is not reproducible for that seed)"}])
